@@ -122,6 +122,14 @@ impl MT204 {
             }
         }
 
+        // The repetitive sequence is mandatory: at least one occurrence
+        // (left-over content is reported by the completeness check that follows)
+        if transactions.is_empty() && parser.is_complete() {
+            return Err(crate::errors::ParseError::InvalidFormat {
+                message: "MT204: At least one transaction (sequence B, field 20) is required".to_string(),
+            });
+        }
+
         crate::parser::utils::verify_parser_complete(&parser)?;
 
         Ok(MT204 {
